@@ -79,6 +79,12 @@ package protocol
 // C07: the normalised path starts with '/', has no "//", "/./", "/../" and does not end in "/..".
 //@ func normalizePath(dst, src) r
 //@   props C07, C03
+//@   witness dst = "", src = "/a/%2e%2e/b"
+//@   witness dst = "", src = "/static/%2e%2e/%2E%2E/etc/passwd"
+//@   witness dst = "", src = "/a/b/%2e%2e"
+//@   witness dst = "", src = "/..x/../y"
+//@   witness dst = "", src = "/a//b/./c/../d/.."
+//@   witness dst = "", src = "a/%2e/../../b%2f..%2fc"
 //@   requires !mayAlias(dst, src)
 //@   modifies bytes(dst), spare(dst)
 //@   allocates
